@@ -114,6 +114,7 @@ def _run_unit_once(unit, rlimit, vacuity, degrade):
     res['rules_fired'] = info['rules_fired']
     res['rule_notes'] = info['rule_notes']
     res['assumption_scan'] = info['assumption_scan']
+    res['assumed_names'] = info.get('assumed_names')
     res['contracted'] = [f['file'] + ' :: ' + f['path'] for f in info['functions']]
     res['items'] = [f['file'] + ' :: ' + f['path'] for f in info['items']]
     res['fn_texts'] = {f['file'] + ' :: ' + f['path']: '\n'.join(text.split('\n')[f['gen_lines'][0] - 1:f['gen_lines'][1]]) for f in info['functions']}
